@@ -152,8 +152,14 @@ func run(args []string) error {
 	case replayCase != nil && replayGroup != "witness":
 		runTx(replayCase)
 	case replayGroup == "":
-		for i := 0; i < n; i++ {
-			c := g.Case(uint32(2+r.Intn(9)), 1)
+		script := hrs.ScriptedC03()
+		for i := 0; i < n+len(script); i++ {
+			var c *hrs.Case
+			if i < len(script) {
+				c = script[i] // fixed prefix, independent of seed and budget
+			} else {
+				c = g.Case(uint32(2+r.Intn(9)), 1)
+			}
 			runTx(c)
 			if i < nblock {
 				// the same transaction, signed, through the block-level checker
@@ -190,7 +196,14 @@ func run(args []string) error {
 	for i := 0; i < nm; i++ {
 		var x hrs.In
 		var t1, t2 uint64
-		if replayGroup == "mono" {
+		if replayGroup == "" && i < 2 {
+			// fixed: seconds*coins wraps 2^64 although bits(seconds)+bits(coins) = 65
+			x = hrs.In{Time: 1000, Coins: 1<<32 - 1, Hours: 7}
+			t1, t2 = 1000+(1<<33-1), 1000+(1<<33-1)+uint64(i)*3600000
+			if i == 0 {
+				t1 = 1000 + (1<<33 - 1) - 3600000
+			}
+		} else if replayGroup == "mono" {
 			data, _ := os.ReadFile(strings.TrimPrefix(f.Extra, "replay="))
 			var rp struct {
 				Case map[string]string `json:"case"`
